@@ -44,6 +44,13 @@ func runC08(r *Run) {
 	for i := 0; i < r.n(20, 400); i++ {
 		r.c08Burst(i)
 	}
+	// an unlimited budget spelled rate.NewLimiter(rate.Inf, 0) (burst is irrelevant at an infinite rate), replies waiting for budget
+	for i := 0; i < r.n(6, 60); i++ {
+		sc := r.newSrvScen(srvOpts{noSecurity: true, peerStore: i%2 == 0, mute: true, waitToReply: i%3 != 2, limiter: rate.NewLimiter(rate.Inf, i%2)})
+		sc.mixedQueries(12)
+		r.hist("config/infinite-rate-limiter")
+		sc.close()
+	}
 	r.faultyStoreStream("C08", r.n(40, 600))
 	r.c08Zoned(r.n(6, 60))
 }
